@@ -10,7 +10,7 @@ From Coq Require Import List Bool.
 From Coq Require String.
 Import String.StringSyntax.
 From DT Require Import PyStr PyVal PureUtils Defaults PyAst IR Merge ParseSig C12Spec C07Spec.
-From DT Require EmitAst C02Spec.
+From DT Require EmitAst C02Spec C07Facts.
 From DT Require Import C03Spec C03Compose.
 Import ListNotations.
 
@@ -23,6 +23,15 @@ Print Assumptions C03_refuted.
 Theorem C03_refutation_witness_class : finding_class_C03 w3_opts w3_ir = Some K3_no_default_becomes_none.
 Proof. exact C03_witness_class. Qed.
 Print Assumptions C03_refutation_witness_class.
+
+(* every finding class is inhabited inside the domain (the same descriptions fail on the real code) *)
+Theorem C03_class_witnesses :
+  forallb (fun w => match w with
+                    | (o, i, k) => C03_domain o i
+                                   && match finding_class_C03 o i with Some k' => class_eqb k k' | None => false end
+                    end) class_witnesses = true.
+Proof. exact C03_class_witnesses_lemma. Qed.
+Print Assumptions C03_class_witnesses.
 
 (* inside the guard (complement = the named finding classes of C03Spec), for every docstring text and every
    docstring-derived IR that documents the described entries: nothing raises, and names, order, types, prose, defaults
@@ -109,8 +118,8 @@ Theorem C03_param_codec : forall o n g v dpo,
    else dpo = None) ->
   exists q rp,
     (match dpo with
-     | Some t => merge_param t (sig_gparam (mkArg n (ann_of o g)) (Some (rdflt g))) = Ok q
-     | None => q = sig_gparam (mkArg n (ann_of o g)) (Some (rdflt g))
+     | Some t => merge_param t (C07Facts.sig_gparam (mkArg n (ann_of o g)) (Some (rdflt g))) = Ok q
+     | None => q = C07Facts.sig_gparam (mkArg n (ann_of o g)) (Some (rdflt g))
      end)
     /\ snt_param n q false true = Ok rp /\ same_param_fn g rp = true.
 Proof. exact param_entry_codec. Qed.
